@@ -801,3 +801,16 @@ def r11(R):
                 R.ob("C01-R11", "reads:%s:%s:%s" % key, "%s reads %s::%s" % key, ok, where=b.where(),
                      detail=None if ok else "the walker never looks at this component: queries that differ only in it are treated alike")
     R.floor("C01-R11", "variant fields of the walked enums", nfields, 60)
+    # the modifier records: every field is consulted by the code that finishes a (sub)query
+    from lib import cover
+    for suf, adtname in (("ExecutionEngine::finalize_subquery", "SubquerySpec"), ("execute_query::execute_select", "SelectQuery")):
+        b = R.body("C01-R11", suf, crate="kolibrie")
+        a = prog.find_adt(adtname)
+        a = a[0] if isinstance(a, list) and a else a
+        if b is None or not a:
+            continue
+        got = cover.consulted_fields(prog, b, a["key"])
+        for f in a["variants"][0]["fields"]:
+            ok = f["name"] in got
+            R.ob("C01-R11", "consults:%s:%s" % (b.name, f["name"]), "%s consults %s.%s" % (b.name, adtname, f["name"]), ok, where=b.where(),
+                 detail=None if ok else "a modifier that is parsed and carried but never consulted has no effect on the answer")
